@@ -377,6 +377,56 @@ func TestC03Ex(t *testing.T) {
 			count++
 		}
 	}
+	// every multiset of long distance code lengths: n11..n15 codes of length 11..15, at most 30 in all
+	// (none is over-subscribed, nearly all are incomplete; the decoder's long-code table is sized for
+	// complete codes). The block itself uses no match, so a lenient decoder may accept the stream.
+	{
+		stride, idx := 31, 0
+		if thorough() {
+			stride = 1
+		}
+		var n [5]int
+		var rec func(k, left int)
+		rec = func(k, left int) {
+			if k == 5 {
+				idx++
+				total := n[0] + n[1] + n[2] + n[3] + n[4]
+				if total == 0 || (idx%stride != 0 && total < 30) {
+					return
+				}
+				var lens []int
+				for li, c := range n {
+					for j := 0; j < c; j++ {
+						lens = append(lens, 11+li)
+					}
+				}
+				sy := &synth.Stream{Blocks: []synth.BlockSpec{{Type: 2, N: 3, Seed: 1, Alpha: 2}}, Fault: &synth.Fault{Kind: synth.FRawDistLens, Block: 0, Lens: lens}, Tail: 0}
+				c := C03Case{Input: StreamSpec{Kind: "synth", Synth: sy}, Reads: []int{4096}}
+				done := begin("C03", c)
+				labels, nt, err := checkC03(c)
+				done()
+				if err != nil {
+					saveLast("C03", c, err)
+					t.Fatalf("C03 violated (distance code lengths %v): %v", lens, err)
+				}
+				if idx%64 == 0 {
+					stats.Record("C03", stats.Digest(c), nt, append(labels, "long-distance-code-multiset-enumeration"), func() any { return c })
+				} else {
+					stats.Record("C03", stats.Digest(c), nt, nil, func() any { return c })
+				}
+				count++
+				return
+			}
+			for c := 0; c <= left; c++ {
+				n[k] = c
+				rec(k+1, left-c)
+			}
+			n[k] = 0
+		}
+		before := count
+		rec(0, 30)
+		stats.Exhaustive("C03", fmt.Sprintf("distance code length multisets over lengths 11..15 with at most 30 codes: all with exactly 30 codes and every %d-th of the rest (all 324631 in the thorough tier)", stride), count-before)
+	}
 	// a back-reference reaching exactly one or two bytes before the start of the output, at produced counts
 	// around 32768 (the largest distance) and a few others, inside one long dynamic block
 	for _, base := range []int{1, 2, 255, 4096, 32768, 65536} {
